@@ -247,6 +247,21 @@ func (c ocase) pathsBuild() bool {
 	return true
 }
 
+// invalidReadPath: the first path of a WithReadPaths option that is not a field mask path of the root.
+func (c ocase) invalidReadPath() (path, kind string) {
+	md := rootByName(c.Root).MD()
+	for _, o := range c.Options {
+		if o[0] == 'P' {
+			for _, p := range parseMaskEnc(o[1:]).Paths {
+				if k := invalidKind(md, p); k != "" {
+					return p, k
+				}
+			}
+		}
+	}
+	return "", ""
+}
+
 func (c ocase) monitor(mon *lib.Monitor, out oout) {
 	site := "C06/" + c.Site + "/options"
 	if c.Site == "NewResponseFilter" {
@@ -266,6 +281,16 @@ func (c ocase) monitor(mon *lib.Monitor, out oout) {
 		}
 		mon.Violate(site+"/panic", "a read with a list of read options panicked: "+out.Panic, c, "no panic", "panic")
 		return
+	}
+	if c.Site != "NewResponseFilter" {
+		// the validating option: "Panics if paths aren't part of m" — every path fieldmaskpb / Validate call
+		// invalid (unknown segment, continuation through a scalar, map or repeated field whatever the
+		// next segment is called) has to be refused when the option is built
+		if p, kind := c.invalidReadPath(); kind != "" {
+			mon.Violate(site+"/WithReadPaths-accepts-invalid-path/"+kind,
+				"resource.WithReadPaths accepted the path "+fmt.Sprintf("%q", p)+", which is not a field mask path of the message ("+kind+"): validation has to report it", c, "panic", "no panic")
+			return
+		}
 	}
 	if out.Mutated != "" {
 		mon.Violate(site+"/mutated", out.Mutated, c, "unchanged", "changed")
@@ -394,9 +419,29 @@ func runOptionCases(cases []ocase, tie *lib.Tie, mon *lib.Monitor, drv *lib.Driv
 // modelOpts: the include predicates are named by a number in the model.
 func (c ocase) modelOpts() string { return c.enc() }
 
+// corruptEnc: a mask of 1-3 paths of which one is a descriptor-derived corruption (corrupt.go).
+func corruptEnc(g *mt.Gen, c *ocase) (enc, kind string) {
+	md := rootByName(c.Root).MD()
+	bad, kind := corruptionsOf(md).draw(g)
+	ps := []string{bad}
+	if g.R.Intn(2) == 0 {
+		focus := g.Focus(md, 2)
+		ps = append(ps, g.MaskFrom(focus, mt.PathOpts{Corrupt: 0}).Paths...)
+		if len(ps) > 3 {
+			ps = ps[:3]
+		}
+		g.R.Shuffle(len(ps), func(i, j int) { ps[i], ps[j] = ps[j], ps[i] })
+	}
+	return mt.Mask{Paths: ps}.Enc(), kind
+}
+
 func genMaskEnc(g *mt.Gen, c *ocase, valid bool) string {
 	r := rootByName(c.Root)
 	md := r.MD()
+	if !valid && g.R.Intn(4) == 0 {
+		e, _ := corruptEnc(g, c)
+		return e
+	}
 	focus := g.Focus(md, 2+g.R.Intn(3))
 	switch x := g.R.Intn(10); {
 	case x == 0 && !valid:
@@ -443,7 +488,7 @@ func genOptionCase(g *mt.Gen, site string) ocase {
 		case x < 6:
 			c.Options = append(c.Options, "M~")
 		case x < 8:
-			if e := genMaskEnc(g, &c, g.R.Intn(8) != 0); e == "~" {
+			if e := genMaskEnc(g, &c, g.R.Intn(3) != 0); e == "~" {
 				c.Options = append(c.Options, "P-")
 			} else {
 				c.Options = append(c.Options, "P"+e)
@@ -489,6 +534,20 @@ func seededOptionCases() []ocase {
 		}
 		if site == "NewResponseFilter" {
 			lists = [][]string{{}, {"~"}, {a}, {a, "~"}, {"~", a}, {a, b}, {a, "-"}, {"-", "~"}, {"-", b}, {par, b, "~"}}
+		}
+		if site != "NewResponseFilter" {
+			// one WithReadPaths per KIND of descriptor-derived corruption (corrupt.go): alone, after a mask
+			// and before a nil mask — building the option panics wherever it stands
+			for i, p := range corruptionsOf((&testproto.TestAllTypes{}).ProtoReflect().Descriptor()).firstOfEachKind(2) {
+				switch i % 3 {
+				case 0:
+					lists = append(lists, []string{"P/" + p})
+				case 1:
+					lists = append(lists, []string{"M" + a, "P/" + p})
+				default:
+					lists = append(lists, []string{"P/default_int32/" + p, "M~"})
+				}
+			}
 		}
 		for _, l := range lists {
 			if len(l) > 0 && l[0] == "Prepeated_foreign_message.c" {
